@@ -134,3 +134,22 @@ package util
 //@   loop 1 invariant $k <= len(old(commentGroup.List)) && commentGroup.List == old(commentGroup.List) && sameOld(removed)
 //@   loop 1 invariant (removed == nil || fresh(removed)) && forall(i, 0, len(removed), removed[i] != nil && reMatchString(pattern, removed[i].Text))
 //@   loop 1 invariant (modified == nil || fresh(modified)) && forall(i, 0, len(modified), modified[i] != nil) && disjoint(modified, removed)
+
+// ---- type names (C08, C01, C14) -----------------------------------------------------------------------------------------
+
+//@ spec otherTypeExpr(i ImportNames, t types.Type) string
+//@ spec namedExpr(i ImportNames, n *types.Named) string =
+//@     cond(pkgOfObj(namedObj(n)) == nil, nameOf(namedObj(n)),
+//@     cond(has(i, pkgPath(pkgOfObj(namedObj(n)))), i[pkgPath(pkgOfObj(namedObj(n)))] + "." + nameOf(namedObj(n)), nameOf(namedObj(n))))
+//@ spec typeExpr(i ImportNames, t types.Type) string =
+//@     cond(is(t, *types.Pointer), "*" + typeExpr(i, ptrElem(as(t, *types.Pointer))),
+//@     cond(is(t, *types.Basic), basicName(as(t, *types.Basic)),
+//@     cond(is(t, *types.Named), namedExpr(i, as(t, *types.Named)),
+//@     cond(is(t, *types.Slice), "[]" + typeExpr(i, sliceElemType(as(t, *types.Slice))), otherTypeExpr(i, t)))))
+//@
+//@ func (ImportNames).TypeName(i, t) (r)
+//@   requires t != nil
+//@   ensures {C08,C01,C16} r == typeExpr(i, t)
+//@ func (ImportNames).IsExternal(i, t) (r)
+//@   requires t != nil
+//@   ensures {C08} r == (is(derefT(t), *types.Named) && pkgOfObj(namedObj(as(derefT(t), *types.Named))) != nil && has(i, pkgPath(pkgOfObj(namedObj(as(derefT(t), *types.Named))))))
